@@ -545,6 +545,28 @@ impl Pool {
     }
 }
 
+/// Verification hooks: open a lease database at a chosen path, and move every stored timestamp
+/// into the past (observationally the same as advancing the clock, since the pool only ever
+/// compares stored times with "now").
+#[cfg(feature = "verif")]
+impl Pool {
+    pub fn verif_open(path: &std::path::Path) -> Result<Pool, Error> {
+        let conn = rusqlite::Connection::open(path)
+            .map_err(|e| Error::emit("Creating database (verif)", &e))?;
+        Self::new_with_conn(conn)
+    }
+
+    pub fn verif_shift_clock(&mut self, secs: i64) -> Result<(), Error> {
+        self.conn
+            .execute(
+                "UPDATE leases SET start = start - ?1, expiry = expiry - ?1",
+                rusqlite::params![secs],
+            )
+            .map(|_| ())
+            .map_err(|e| Error::emit("Shifting lease times (verif)", &e))
+    }
+}
+
 fn map_no_row_to_none<T>(e: rusqlite::Error) -> Result<Option<T>, Error> {
     if e == rusqlite::Error::QueryReturnedNoRows {
         Ok(None)
